@@ -88,6 +88,23 @@ if os.path.isdir(prof_dir):
                 # shim <pkg path> <import>[@file.go] ...: import shims for this profile only
                 apply_shims(rel, line.split()[2:], rep, "ps__" + pf[:-4] + "__")
                 continue
+            if kind == "gostmt":
+                # gostmt <repo file> [daemon substrings...]: every go statement of the file
+                # becomes vsched.Go / vsched.GoDaemon (engine/cmd/gostmt, AST rewrite)
+                target = os.path.join(REPO, rel)
+                cur = rep.get(target, target)
+                dst = os.path.join(GEN, "gs__" + pf[:-4] + "__" + rel.replace("/", "__"))
+                tmp = dst + ".tmp"
+                r = subprocess.run([os.path.join(VERIF, ".cache", "bin", "gostmt"), cur, tmp] + line.split()[2:], capture_output=True, text=True)
+                if r.returncode != 0 or r.stdout.strip() == "0":
+                    print("overlay: gostmt failed or found no go statement in", rel, r.stderr, file=sys.stderr)
+                    sys.exit(1)
+                if not os.path.exists(dst) or open(dst).read() != open(tmp).read():
+                    os.replace(tmp, dst)
+                else:
+                    os.remove(tmp)
+                rep[target] = dst
+                continue
             if kind == "subst":
                 # subst <repo file> <subst spec under /verif/ovl/subst/>: exact-text
                 # substitutions (each must match exactly once, else the build is refused)
